@@ -126,7 +126,11 @@ func panicOrigin(stack string) string {
 			continue
 		}
 		if seenPanic && !strings.HasPrefix(l, "\t") && !strings.HasPrefix(l, "goroutine ") && l != "" {
-			return l
+			// frames of the standard library between the panic and its caller are passed over: what
+			// matters is whether the library or the harness made the call that panicked
+			if strings.HasPrefix(l, "go.lstv.dev/util") || strings.HasPrefix(l, "main.") {
+				return l
+			}
 		}
 	}
 	return "unknown"
